@@ -35,6 +35,7 @@ def c01(ctx):
     n, b = scale(ctx, (2500, 4), (6000, 16))
     sem.trace_batches(ctx, "mixed", "MachineTrace_C01.cfg", n, b)
     sem.trace_batches(ctx, "multi", "MachineTrace_C01.cfg", n, b)
+    sem.trace_batches(ctx, "pair", "MachineTrace_C01.cfg", n, b)    # several sources x several destinations: a posting attributed to the wrong source overdraws it
     sem.scale_sem(ctx, "multi", "MachineTrace_C01.cfg", scale(ctx, 1500, 15000))
     sem.family_replay(ctx, "src", "MachineTrace_C01.cfg")          # every member of the exhaustive source family (bounded overdrafts on negative balances, zero shares first, ...)
     if ctx.tier == "thorough":
